@@ -134,7 +134,12 @@ var profiles = []string{"asc", "desc", "zigzag", "random", "churn"}
 func main() {
 	o := vhlib.ParseOpts()
 	rng := vhlib.NewRng(o.Seed)
-	w := vhlib.NewWriter(o.Out, "From VF Require Import C17.Cost C17.Check.\nLocal Open Scope Z_scope.", "case", "mismatches", 40)
+	// thorough: the skip-list dumps of 2^14..2^16 nodes are several hundred KB each: few cases per file
+	shard := 40
+	if o.Thorough() {
+		shard = 6
+	}
+	w := vhlib.NewWriter(o.Out, "From VF Require Import C17.Cost C17.Check.\nLocal Open Scope Z_scope.", "case", "mismatches", shard)
 
 	mk := func(kind string, m int) (tree, func() string, string) {
 		switch kind {
